@@ -20,6 +20,9 @@ func TestPropRefusals(t *testing.T) {
 		m := sm.New(t, sm.Opts{Refusals: true})
 		defer m.Close()
 		t.Repeat(m.Actions(m.Check))
+		if m.Abandoned {
+			return // inconclusive (counted by the machine), neither a pass nor a failure
+		}
 		shape := m.Shape()
 		nt := (m.Flags["cycleThroughDeleted"] || m.Flags["nanInMiddle"]) && len(m.G.Edges) >= 4
 		stats.Case(nt, stats.Digest(m.History()), shape...)
